@@ -301,11 +301,10 @@ def swapRemove {α : Type} (l : List α) (i : Nat) : List α :=
 
 abbrev Checker := SymbolTable → Ctx → Ty → R (Term × SymbolTable)
 
-/-- a clause whose body has been replaced by its checking function -/
+/-- a clause together with the checking function of its body (`body = checkTerm src.body`; the loop
+below only uses `src.pol`, `src.xtor`, `src.names` and `body`) -/
 structure ClauseK where
-  pol : Polarity
-  xtor : String
-  names : List String
+  src : Clause
   body : Checker
 
 /-- symbol_table.rs: lookup_ty_template_for_ctor / _dtor; the failure code is T-023 -/
@@ -338,7 +337,7 @@ def clauseLoop (sigOf : SymbolTable → String → Option (Ctx × Ty)) (missing 
   | [], ks, acc, st => .ok (acc.reverse, ks, st)
   | xtor :: rest, ks, acc, st =>
     let fullName := instName xtor tyArgs
-    match ks.findIdx? (fun k => k.xtor = xtor) with
+    match ks.findIdx? (fun k => k.src.xtor = xtor) with
     | none => .error (.diag missing)
     | some pos =>
       match ks[pos]? with
@@ -348,17 +347,17 @@ def clauseLoop (sigOf : SymbolTable → String → Option (Ctx × Ty)) (missing 
         match sigOf st fullName with
         | none => .error (.diag "T-002")
         | some (sig, bodyTy) =>
-          match namesNoDups k.names [] with
+          match namesNoDups k.src.names [] with
           | .error e => .error e
           | .ok () =>
-            match addTypes k.names sig with
+            match addTypes k.src.names sig with
             | .error e => .error e
             | .ok ctxClause =>
               match k.body st (ctx ++ ctxClause) bodyTy with
               | .error e => .error e
               | .ok (body', st1) =>
                 clauseLoop sigOf missing tyArgs ctx rest ks'
-                  (⟨k.pol, k.xtor, k.names, ctxClause, body'⟩ :: acc) st1
+                  (⟨k.src.pol, k.src.xtor, k.src.names, ctxClause, body'⟩ :: acc) st1
 
 /-- check.rs: check_args, covariable case on an `XVar` argument -/
 def checkCovarArg (st : SymbolTable) (ctx : Ctx) (x : String) (ty : Option Ty) (chi : Option Chi)
@@ -583,7 +582,7 @@ mutual
   /-- the clauses of a `case`/`new` with their bodies as checking functions -/
   def clauseCheckers : Clauses → List ClauseK
     | .nil => []
-    | .cons p x ns _ b r => ⟨p, x, ns, checkTerm b⟩ :: clauseCheckers r
+    | .cons p x ns c b r => ⟨⟨p, x, ns, c, b⟩, checkTerm b⟩ :: clauseCheckers r
 end
 
 /-! ## declarations and programs -/
